@@ -13,6 +13,7 @@
     gives.
   * every successful operation keeps the invariant: `after_decompression` / `recompute_consistent`
     (what `recompute`, and the first `set_raw_name` / `delete`, make of any accepted packet),
+    `iter_uncompress_consistent` (in-place decompression through an iterator), `first_touch_consistent`,
     `insert_*_consistent`, `delete_consistent` (deleting the OPT record clears the summary),
     `set_ttl_consistent`, `set_ip_consistent`, `set_name_consistent`, `header_consistent`; by
     chaining, any sequence of them does.  `rename_fresh`: a successful object-level rename leaves
@@ -23,8 +24,7 @@
 
   Excluded by hypothesis (known findings, by design): question insertion/deletion (KF1, KF4), the OPT
   record as the target of set-name / set-TTL (KF5), clearing QR with answers present (KF3); setters
-  on a still-compressed object (KF2) and in-place decompression through an iterator are covered by
-  the script correspondence and the view oracle only.  The chaining over operation sequences is not
+  on a still-compressed object (KF2) are covered by the script correspondence and the view oracle only.  The chaining over operation sequences is not
   itself a Lean statement.
 -/
 import DnsModel.Theorems.C09
@@ -410,5 +410,28 @@ theorem recompute_consistent {pp : PP} {p : Bytes} {v : View} (F : Fresh pp p v)
 theorem recompute_plain (pp : PP) (h : pp.maybeCompressed = false) : pp.recompute = .ok (pp, none) := by
   unfold PP.recompute
   simp [h]
+
+/-- **in-place decompression through an iterator** on an object that still has its flag: the result is
+consistent and the cursor is carried to the same record; on a plain object nothing happens -/
+theorem iter_uncompress_consistent {pp : PP} {p : Bytes} {v : View} (F : Fresh pp p v) (hmp : pp.maxPayload = v.maxPayload)
+    (L : C03.Layout p) (o : C05.Output p L)
+    (sec : Section) (hs : sec.isRec = true) {l1 l2 : List RecPos} {r : RecPos} {ps1 ps2 : List Bytes} {pc : Bytes}
+    (hl : L.recs sec = l1 ++ r :: l2) (hp : o.pieces sec = ps1 ++ pc :: ps2) (hlen : l1.length = ps1.length)
+    (c : Cursor) (hsec : c.sec = sec) (hoff : c.offset = some r.off) :
+    ∃ pp' c', iterUncompress pp c = mOk pp' c' ∧ Consistent pp' ∧ pp'.packet = o.bytes := by
+  obtain ⟨v2, P, ne, h2, _, _, _, hrun⟩ := iterUncompress_fresh F L o sec hs hl hp hlen c hsec hoff
+  obtain ⟨e1, e2, e3, e4, e5⟩ := edns_fields_carried F hmp o h2
+  exact ⟨_, _, hrun, ⟨P, Or.inl rfl, ednsOK_rebased P h2 e1 e2 e3 e4 e5⟩, rfl⟩
+
+/-- **the decompress-first step** of `set_raw_name` / `delete` leaves a consistent object -/
+theorem first_touch_consistent {pp : PP} {p : Bytes} {v : View} (F : Fresh pp p v) (hmp : pp.maxPayload = v.maxPayload)
+    (L : C03.Layout p) (o : C05.Output p L)
+    (sec : Section) (hs : sec.isRec = true) {l1 l2 : List RecPos} {r : RecPos} {ps1 ps2 : List Bytes} {pc : Bytes}
+    (hl : L.recs sec = l1 ++ r :: l2) (hp : o.pieces sec = ps1 ++ pc :: ps2) (hlen : l1.length = ps1.length)
+    (c : Cursor) (hsec : c.sec = sec) (hoff : c.offset = some r.off) :
+    ∃ pp' c', uncompressAt pp c = mOk pp' c' ∧ Consistent pp' ∧ pp'.packet = o.bytes := by
+  obtain ⟨v2, P, ne, ob, oa, h2, _, _, _, _, _, _, hrun⟩ := uncompressAt_fresh F L o sec hs hl hp hlen c hsec hoff
+  obtain ⟨e1, e2, e3, e4, e5⟩ := edns_fields_carried F hmp o h2
+  exact ⟨_, _, hrun, ⟨P, Or.inl rfl, ednsOK_rebased P h2 e1 e2 e3 e4 e5⟩, rfl⟩
 
 end Dns.C08
